@@ -120,3 +120,26 @@ M("C17", "lexicase-epsilon-direction", SEL, "checking_value = best_fitness + mad
 M("C17", "lexicase-best-over-all", SEL, "fitness_components[c] for x in candidates_to_check])", "fitness_components[c] for x in candidates])", "C17.R3")
 M("C17", "lexicase-no-remove", SEL, "            yield winner\n            candidates.remove(winner)\n", "            yield winner\n", "C17.R4")
 M("C17", "twin-best-negated-test", SEL, "choose_best = min if problem.minimize[c] else max", "choose_best = max if not problem.minimize[c] else min", "", expect="silent")
+
+# ------------------------------------------------------------------------------------- C15
+COMB = "geneticengine/algorithms/gp/operators/combinators.py"
+ELI = "geneticengine/algorithms/gp/operators/elitism.py"
+XO = "geneticengine/algorithms/gp/operators/crossover.py"
+MUT = "geneticengine/algorithms/gp/operators/mutation.py"
+TOPS = "geneticengine/representations/tree/operators.py"
+M("C15", "elitism-double-consume", ELI, "        new_population = sort_population(candidates, problem)", "        new_population = sort_population(list(population), problem)", "C15.R1")
+M("C15", "parallel-pass-consumed", COMB, "                    iter(npopulation),\n                    end - start,", "                    population,\n                    end - start,", "C15.R1")
+M("C15", "tournament-relist", "geneticengine/algorithms/gp/operators/selection.py", "candidates = list(pool)", "candidates = list(population)", "C15.R1")
+M("C15", "crossover-off-by-one", XO, "for i in range(target_size // 2):", "for i in range((target_size + 1) // 2):", "C15.R2")
+M("C15", "crossover-drop-odd", XO, "        if (target_size // 2) * 2 < target_size:\n            yield npopulation[0]\n", "", "C15.R2")
+M("C15", "mutation-le", MUT, "if index < target_size:", "if index <= target_size:", "C15.R2")
+M("C15", "elitism-slice-plus-one", ELI, "yield from new_population[:target_size]", "yield from new_population[: target_size + 1]", "C15.R2")
+M("C15", "inject-off-by-one", TOPS, "target_size - injected)", "target_size - injected + 1)", "C15.R2")
+M("C15", "pigrow-halves", TOPS, "yield from self.full.initialize(problem, representation, random, target_size - half)", "yield from self.full.initialize(problem, representation, random, half)", "C15.R2")
+M("C15", "novelty-one-less", "geneticengine/algorithms/gp/operators/novelty.py", "for _ in range(target_size):", "for _ in range(target_size - 1):", "C15.R2")
+M("C15", "ranges-unclamped", COMB, "indices = [0] + [min(v, target_size) for v in shares]", "indices = [0] + [v for v in shares]", "C15.R2p")
+M("C15", "ranges-last-conditional", COMB, "        indices[-1] = target_size\n", "        if indices[-1] < target_size:\n            indices[-1] = target_size\n", "C15.R2p")
+M("C15", "parallel-asks-end", COMB, "                    iter(npopulation),\n                    end - start,", "                    iter(npopulation),\n                    end,", "C15.R2p")
+M("C15", "driver-wrong-size", "geneticengine/algorithms/gp/gp.py", "                    population,\n                    self.population_size,", "                    population,\n                    len(population.individuals),", "C15.R3")
+M("C15", "twin-materialise-comprehension", ELI, "        candidates = list(population)", "        candidates = [ind for ind in population]", "", expect="silent")
+M("C15", "twin-range-loop-identity", COMB, "        for _, p in zip(range(target_size), population):\n            yield p", "        for _, p in zip(range(target_size), population):\n            q = p\n            yield q", "", expect="silent")
